@@ -51,11 +51,11 @@ Recoverable(S, P, o) == ObjRecoverable(S, P, o) /\ \E id \in FdtIds(S) : o \in F
 
 -----------------------------------------------------------------------------
 NewMon(e) ==
-  [ beh |-> e.beh, sid |-> e.sid, rcfg |-> e.rcfg, w |-> e.w, fam |-> e.fam,
+  [ beh |-> e.beh, sid |-> e.sid, rcfg |-> e.rcfg, w |-> e.w, fam |-> e.fam, heap0 |-> e.heap0,
     W |-> <<>>,                 \* writer id -> [o, st, len, ans, end, exact]
     pushed |-> {}, ordered |-> TRUE, lasti |-> 0, npush |-> 0, mutated |-> FALSE, explicitOps |-> FALSE,
     fdtrx |-> {}, fdtoff |-> <<>>, attach |-> <<>>, tFdtDone |-> -1, tFirstObj |-> -1, ne |-> 0,
-    dead |-> FALSE ]
+    slept |-> FALSE, dead |-> FALSE ]
 
 DefaultWriter(m) == m.w.ans = <<>> /\ m.w.open_fail = <<>> /\ m.w.write_fail = <<>>
 WritersOf(m, o) == {w \in DOMAIN m.W : m.W[w].o = o}
@@ -76,9 +76,11 @@ CacheOk(S, o, c) ==
      /\ IF en.cache[1] = "none" THEN c[1] = "hint" /\ c[2] = S.fdts[j].exp
         ELSE c[1] = en.cache[1] /\ c[2] = en.cache[2]
 
+\* objects of another session sharing endpoint and TSI (adversarial traffic) are reported with an offset: foreign
+Own(S, o) == IF o >= 1 /\ o <= NObj(S) THEN o ELSE 0
 CbChecks(S, m, e, cb) ==
   IF cb.k = "new" THEN
-    LET o == cb.o IN
+    LET o == Own(S, cb.o) IN
     << <<"C01", "writer-created-for-unknown-object", m.mutated \/ o > 0, cb.toix>>,
        <<"C18", "writer-callback-carries-wrong-endpoint-or-tsi", cb.ep = e.ep /\ cb.tsi = S.cfg.tsi, <<cb.ep, cb.tsi>> >>,
        <<"C01", "metadata-differs-from-what-the-sender-was-given",
@@ -118,9 +120,9 @@ CbChecks(S, m, e, cb) ==
 CbStep(S, m, e, cb) ==
   IF cb.k = "new" THEN
     [m EXCEPT !.W = [x \in DOMAIN @ \cup {cb.w} |->
-                       IF x = cb.w THEN [o |-> cb.o, st |-> "new", len |-> 0, ans |-> cb.ans, end |-> "", exact |-> FALSE, ok |-> TRUE]
+                       IF x = cb.w THEN [o |-> Own(S, cb.o), st |-> "new", len |-> 0, ans |-> cb.ans, end |-> "", exact |-> FALSE, ok |-> TRUE]
                        ELSE @[x]],
-              !.attach = IF cb.o \in DOMAIN @ THEN @ ELSE [x \in DOMAIN @ \cup {cb.o} |-> IF x = cb.o THEN cb.ts ELSE @[x]]]
+              !.attach = @]
   ELSE IF cb.k = "fdtrx" THEN
     IF Has(e, "i") /\ e.i >= 1 /\ e.i <= NPk(S) /\ Pk(S, e.i).k = "fdt" THEN [m EXCEPT !.fdtrx = @ \cup {Pk(S, e.i).id}] ELSE m
   ELSE IF cb.k \in {"open", "write", "complete", "error", "interrupted"} /\ cb.w \in DOMAIN m.W THEN
@@ -140,7 +142,7 @@ AllCbChecks(S, m, e) == LET s == CbStates(S, m, e, e.cb) IN FlattenSeq([i \in 1.
 
 -----------------------------------------------------------------------------
 (* memory (C17): snapshot of the real containers after every call *)
-MaxPkt(S) == LET RECURSIVE Mx(_) Mx(i) == IF i = 0 THEN 0 ELSE Max2(Mx(i - 1), Pk(S, i).size) IN Mx(NPk(S))
+MaxPkt(S) == S.maxpkt     \* size of the largest datagram of the session (computed once when the session is recorded)
 MemChecks(S, m, st) ==
   IF m.rcfg.max_cache < 0 THEN
      << <<"C17", "failed-object-list-longer-than-configured", \A i \in 1..Len(st.sess) : st.sess[i].nerr <= m.rcfg.max_err, st.ne>> >>
@@ -151,15 +153,16 @@ MemChecks(S, m, st) ==
      <<"C17", "decoded-blocks-exceed-the-cache-size-by-more-than-two-blocks",
         \A i \in 1..Len(st.sess) : \A j \in 1..Len(st.sess[i].objs) :
             LET x == st.sess[i].objs[j] IN
-            x.o = 0 \/ x.ab <= m.rcfg.max_cache + 2 * (SObj(S, x.o).B * SObj(S, x.o).E), <<m.rcfg.max_cache>> >>,
+            Own(S, x.o) = 0 \/ x.ab <= m.rcfg.max_cache + 2 * (SObj(S, x.o).B * SObj(S, x.o).E), <<m.rcfg.max_cache>> >>,
      <<"C17", "failed-object-list-longer-than-configured", \A i \in 1..Len(st.sess) : st.sess[i].nerr <= m.rcfg.max_err, st.ne>> >>
 
 -----------------------------------------------------------------------------
 (* events *)
 \* what the receiver learns from the packet itself before it can call back: the packet may be altered, and
 \* the sender-current-time offset of an FDT packet is taken when the packet is parsed
+OwnPush(m, e) == ~Has(e, "sid") \/ e.sid = m.sid
 PrePush(S, m, e) ==
-  LET intact == ~Has(e, "mut") /\ e.i >= 1
+  LET intact == ~Has(e, "mut") /\ e.i >= 1 /\ OwnPush(m, e)
       p == IF e.i >= 1 /\ e.i <= NPk(S) THEN Pk(S, e.i) ELSE [k |-> "raw"]
   IN  [m EXCEPT !.mutated = @ \/ ~intact,
                 !.fdtoff = IF intact /\ p.k = "fdt" /\ p.sct
@@ -171,15 +174,15 @@ PushChecks(S, m, e) ==
   \o AllCbChecks(S, PrePush(S, m, e), e)
   \o (IF Has(e, "st") THEN MemChecks(S, m, e.st) ELSE <<>>)
   \o << <<"C04", "intact-packet-of-a-valid-session-rejected",
-           Has(e, "mut") \/ e.i = 0 \/ e.res # "err" \/ m.mutated, <<e.i, e.res>> >> >>
+           Has(e, "mut") \/ e.i = 0 \/ e.res # "err" \/ m.mutated \/ ~OwnPush(m, e), <<e.i, e.res>> >> >>
 
 PushStep(S, m, e) ==
   LET m1 == AfterCbs(S, PrePush(S, m, e), e)
-      intact == ~Has(e, "mut") /\ e.i >= 1
-      p == IF e.i >= 1 /\ e.i <= NPk(S) THEN Pk(S, e.i) ELSE [k |-> "raw"]
+      intact == ~Has(e, "mut") /\ e.i >= 1 /\ OwnPush(m, e)
+      p == IF e.i >= 1 /\ e.i <= NPk(S) /\ OwnPush(m, e) THEN Pk(S, e.i) ELSE [k |-> "raw"]
   IN  [m1 EXCEPT !.pushed = IF intact THEN @ \cup {e.i} ELSE @,
-                 !.ordered = @ /\ (e.i >= m.lasti),
-                 !.lasti = e.i, !.npush = @ + 1,
+                 !.ordered = @ /\ (~OwnPush(m, e) \/ e.i >= m.lasti),
+                 !.lasti = IF OwnPush(m, e) THEN e.i ELSE @, !.npush = @ + 1,
                  !.dead = e.res = "panic",
                  !.tFdtDone = IF @ = -1 /\ (\E j \in 1..Len(e.cb) : e.cb[j].k = "fdtrx") THEN e.ts ELSE @,
                  !.tFirstObj = IF @ = -1 /\ intact /\ p.k = "obj" THEN e.ts ELSE @,
@@ -217,6 +220,10 @@ EndChecks(S, m, e) ==
         IF m.fam = "join" /\ LossyRun(S, m)
         THEN \A o \in Accepted(S) : SObj(S, o).car[1] # "none" => NExact(m, o) >= 1
         ELSE TRUE, <<m.lasti>> >>,
+     <<"C04", "valid-session-after-adversarial-traffic-not-delivered",
+        IF m.fam = "c04" /\ m.ordered /\ m.pushed = 1..NPk(S) /\ DefaultWriter(m) /\ ~S.sender_dead
+        THEN \A o \in Accepted(S) : NExact(m, o) = 1 /\ NFailed(m, o) = 0
+        ELSE TRUE, [o \in Accepted(S) |-> <<NExact(m, o), NFailed(m, o)>>]>>,
      <<"C03", "object-reported-both-complete-and-failed",
         \A w \in DOMAIN m.W : m.W[w].end # "both", {w \in DOMAIN m.W : m.W[w].end = "both"}>>,
      <<"C19", "outcome-differs-from-expiry-on-the-sender-clock",
@@ -231,11 +238,31 @@ EndChecks(S, m, e) ==
                ELSE TRUE,
         <<m.fdtoff, [o \in Accepted(S) |-> NExact(m, o)]>> >> >>
 
+\* aggregated adversarial traffic (every case was pushed into the receiver; only offenders are itemised)
+HeapLimit(m) == (IF m.rcfg.max_cache < 0 THEN 10485760 ELSE m.rcfg.max_cache) * 3 + 4194304
+BatchChecks(S, m, e) ==
+  << <<"C04", "receiver-call-did-not-return-ok-or-err", e.panic = 0, <<e.kind, e.arg, e.first_bad>> >>,
+     <<"C04", "receiver-allocates-beyond-the-configured-limits", e.peak <= HeapLimit(m), <<e.kind, e.arg, e.peak>> >>,
+     <<"C04", "receiver-call-too-slow", e.maxus <= 1000000, <<e.kind, e.arg, e.maxus>> >> >>
+  \o AllCbChecks(S, [m EXCEPT !.mutated = TRUE], e @@ [i |-> 0])
+  \o (IF Has(e, "st") THEN MemChecks(S, m, e.st) ELSE <<>>)
+
+\* after a cleanup with every timeout elapsed nothing is left (C17)
+CleanupChecks(S, m, e) ==
+  IF ~(Has(e, "st") /\ m.slept /\ m.rcfg.obj_to = 0) THEN <<>> ELSE
+  << <<"C17", "stalled-objects-not-released-by-cleanup", e.st.n = 0, e.st.n>>,
+     <<"C17", "unfinished-fdt-instances-not-released-by-cleanup",
+         \A i \in 1..Len(e.st.sess) : \A j \in 1..Len(e.st.sess[i].fr) : e.st.sess[i].fr[j][2] # 0, e.st.sess>>,
+     <<"C17", "idle-sessions-not-released-by-cleanup", m.rcfg.sess_to # 0 \/ Len(e.st.sess) = 0, Len(e.st.sess)>>,
+     <<"C17", "heap-not-released-by-cleanup", m.rcfg.sess_to # 0 \/ e.st.heap <= m.heap0 + 1048576, <<e.st.heap, m.heap0>> >> >>
+
 Checks(S, m, e) ==
   CASE e.ev = "push"    -> PushChecks(S, m, e)
+    [] e.ev = "batch"   -> BatchChecks(S, m, e)
     [] e.ev = "cleanup" -> << <<"C04", "receiver-call-did-not-return-ok-or-err", e.res = "ok", <<"cleanup", e.res>> >> >>
                            \o AllCbChecks(S, m, e @@ [ep |-> 10, i |-> 0])
                            \o (IF Has(e, "st") THEN MemChecks(S, m, e.st) ELSE <<>>)
+                           \o CleanupChecks(S, m, e)
     [] e.ev = "drop"    -> DropChecks(S, m, e)
     [] e.ev = "end"     -> EndChecks(S, m, e)
     [] e.ev = "hang"    -> << <<"C04", "receiver-call-did-not-return-in-bounded-time", FALSE, e.op>> >>
@@ -243,7 +270,9 @@ Checks(S, m, e) ==
     [] OTHER -> <<>>
 
 Step(S, m, e) ==
-  CASE e.ev = "push"    -> PushStep(S, m, e)
+  CASE e.ev = "push"    -> [PushStep(S, m, e) EXCEPT !.slept = FALSE]
+    [] e.ev = "batch"   -> [AfterCbs(S, [m EXCEPT !.mutated = TRUE], e @@ [i |-> 0]) EXCEPT !.dead = e.panic > 0, !.slept = FALSE]
+    [] e.ev = "sleep"   -> [m EXCEPT !.slept = e.ms >= 3]
     [] e.ev = "cleanup" -> [AfterCbs(S, m, e @@ [ep |-> 10, i |-> 0]) EXCEPT !.explicitOps = TRUE, !.dead = e.res # "ok"]
     [] e.ev = "drop"    -> [AfterCbs(S, m, e @@ [ep |-> 10, i |-> 0]) EXCEPT !.explicitOps = @ \/ ~Has(e, "final")]
     [] e.ev = "listen"  -> [m EXCEPT !.explicitOps = TRUE]
